@@ -128,12 +128,23 @@ func runProperty(p *property, tier, repo, verif string, list bool) int {
 	}
 
 	configs := []LoadOpts{{Dir: repo}}
+	switch os.Getenv("GSVERIF_DEBUG_CONFIG") { // development aid: run the quick tier on one of the thorough configurations
+	case "tests":
+		configs = []LoadOpts{{Dir: repo, Tests: true}}
+	case "vta":
+		configs = []LoadOpts{{Dir: repo, VTA: true}}
+	case "386":
+		configs = []LoadOpts{{Dir: repo, GOARCH: "386", Tags: "verif"}}
+	}
 	if tier == "thorough" {
 		configs = append(configs,
 			LoadOpts{Dir: repo, VTA: true},
 			LoadOpts{Dir: repo, GOARCH: "386", Tags: "verif"},
-			LoadOpts{Dir: repo, Tests: true},
 		)
+		// A configuration with Tests: true was tried and dropped: go/packages then holds two variants of every package
+		// that has tests, packages importing it see the plain variant, and cross-package type identity (which
+		// implements solver.Interface, which callee a call resolves to) no longer holds; _test.go code is not
+		// library code anyway.
 	}
 	var results []configResult
 	for _, o := range configs {
